@@ -4051,6 +4051,17 @@ impl CanonicalizeContext {
 		if parsed_mrow.children().len() == 1 && is_ok_to_merge_child {
 			parsed_mrow = top_of_stack.remove_last_operand_from_mrow();
 			// was synthesized, but is really the original top level mrow
+			if parsed_mrow.attribute_value(CHANGED_ATTR) != Some(ADDED_ATTR_VALUE) {
+				// ... unless the mrow had a single (original) child: that child replaces the mrow and keeps its own attributes
+				// (an author's id stays with the token; 'notation', 'form', etc., are not stripped); the mrow's attributes only fill in
+				parsed_mrow.remove_attribute(CHANGED_ATTR);
+				for attr in &saved_mrow_attrs {
+					if parsed_mrow.attribute(attr.name()).is_none() {
+						parsed_mrow.set_attribute_value(attr.name(), attr.value());
+					}
+				}
+				return Ok(parsed_mrow);
+			}
 		}
 	
 		parsed_mrow.remove_attribute(CHANGED_ATTR);
